@@ -198,6 +198,24 @@ def run_case(kind, q):
                 i = int(np.argmax(err))
                 msgs.append(f"{pipeline}(upsample={us}) {q['pattern']['kind']} r={radius} shape {shape}: disk on pixel "
                             f"{p.tolist()}, start {starts[i].tolist()}: refined {ref[i].tolist()} off by {err[i]:.4f} > {tol:.4f}")
+    if q.get("wrappers"):
+        # the batch helpers (their own output arrays: narrow integer centres) with upsampling, for disks far from the origin of a
+        # long frame: coordinate x upsampling factor goes beyond 2**15
+        from libertem_blobfinder.common import correlation as cc
+        for nm, fn in (("process_frames_fast", cc.process_frames_fast), ("process_frames_full", cc.process_frames_full)):
+            for us in q["upsample"]:
+                try:
+                    outs = fn(pattern, frame[np.newaxis], starts, upsample=us)
+                except Exception as e:
+                    msgs.append(f"{nm}(upsample={us}) raised {type(e).__name__}: {e}")
+                    continue
+                cen, ref = np.asarray(outs[0][0]), np.asarray(outs[1][0], dtype=np.float64)
+                if np.any(cen != p):
+                    msgs.append(f"{nm}(upsample={us}) {q['pattern']['kind']} r={radius} shape {shape}: disk on pixel {p.tolist()}: "
+                                f"centres {cen.tolist()}")
+                elif np.abs(ref - p).max() > 1.5 / us + 1e-6:
+                    msgs.append(f"{nm}(upsample={us}) {q['pattern']['kind']} r={radius} shape {shape}: disk on pixel {p.tolist()}: "
+                                f"refined {ref.tolist()} off by {np.abs(ref - p).max():.4f} > {1.5 / us:.4f}")
     if q.get("wide_level"):
         # the same disk as float64 data on a large constant level (a faint disk on a high pedestal), through the batch helpers
         from libertem_blobfinder.common import correlation as cc
@@ -278,6 +296,24 @@ def search(ctx, boost=1, focus=()):
         ctx.oracle_case("disk", q, msgs, key=classify("disk", q, msgs) if msgs else None,
                         nontrivial=(q["shape"][0] % 2 == 1 or q["shape"][1] % 2 == 1 or q["shape"][0] != q["shape"][1]))
         ctx.count("pattern_" + q["pattern"]["kind"])
+    # long frames (strips of a large detector), the disk far from the origin along the long axis, high upsampling factors
+    for k in range(2 * boost):
+        kind_ = ("circular", "radial_gradient", "background_subtraction")[int(rng.integers(3))]
+        r_ = float(rng.integers(3, 7))
+        pat = {"kind": kind_, "radius": r_, "search": float(2 * r_ + 1)}
+        if kind_ == "background_subtraction":
+            pat["radius_outer"] = float(r_ * 1.5)
+        c_ = int(np.ceil(pat["search"]))
+        long_ = int(rng.integers(700, 1400))
+        short_ = 2 * c_ + int(rng.integers(6, 20))
+        shape = [long_, short_] if k % 2 == 0 else [short_, long_]
+        p_ = [int(rng.integers(c_ + 1, s_ - c_)) for s_ in shape]
+        p_[k % 2] = long_ - c_ - 1 - int(rng.integers(0, 20))
+        q = {"pattern": pat, "shape": shape, "p": p_, "amp": float(rng.uniform(0.5, 8)), "bg": float(rng.integers(0, 200)),
+             "seed": int(rng.integers(1 << 30)), "upsample": [50, int(rng.integers(25, 50))], "wrappers": True}
+        msgs = run_case("disk", q)
+        ctx.oracle_case("disk", q, msgs, key=classify("disk", q, msgs) if msgs else None, nontrivial=True)
+        ctx.count("long_frame")
     # hard-edged disks with sign-matched user templates (the family of theorem flat_disk_exact), other seeds than in corr()
     for k in range(n // 4):
         q = gen_sign_matched(rng, k)
